@@ -88,6 +88,8 @@ def run(ctx):
     for n in sg.nodes:
         if n.kind == "stmt" and isinstance(n.ast, ast.Assign) and unparse(n.ast.targets[0]).endswith("next_num_in"):
             # paths to the write that come through the non-SequenceReset branch must pass `seq_no == next_num_in`
+            base = n.ast.value.left if isinstance(n.ast.value, ast.BinOp) and isinstance(n.ast.value.op, ast.Add) else n.ast.value
+            acc_name = unparse(base)
             reset_edges, eq_edges = set(), set()
             for t in sg.nodes:
                 if t.kind == "test":
@@ -95,12 +97,12 @@ def run(ctx):
                         fs = facts(t.ast, lab == "true")
                         if any(tv and a.endswith("== FMsg.SEQUENCERESET") for a, tv in fs):
                             reset_edges.add((t.id, lab))
-                        if any(tv and a in ("seq_no == self.next_num_in", "self.next_num_in == seq_no") for a, tv in fs):
+                        if any(tv and a in (f"{acc_name} == self.next_num_in", f"self.next_num_in == {acc_name}") for a, tv in fs):
                             eq_edges.add((t.id, lab))
             from sa.guards import unprotected_path
             w = unprotected_path(sg, n.id, [], reset_edges | eq_edges, exc=False)
             ctx.instance(R2, "set_next_num_in[advance only at the expected number]", w is None and bool(eq_edges),
-                         "FIXSession.set_next_num_in advances the counter for a non-SequenceReset message without its `seq_no == next_num_in` test: a number above "
+                         "FIXSession.set_next_num_in advances the counter for a non-SequenceReset message without its `<number> == next_num_in` test: a number above "
                          "the expected one would move the counter past the gap", loc(n.ast), sg.describe(w or [])[-6:])
     # who writes next_num_in at all
     writers = res.writers_of("next_num_in")
